@@ -20,6 +20,8 @@ func c04(p *core.Program, r *core.Report) {
 	r.Rule("R2", "writer/reader layout agreement for Pilosa's format: the widths written by writeToUnoptimized (cookie word, key count, per-container descriptor key:8 type:2 n-1:2, 4-byte offsets) are the widths, offsets, strides and +1 correction read by unmarshalPilosaRoaring and by the Pilosa iterator; the two official-format readers read the same descriptor layout; every fixed-width read decodes exactly the bytes it slices")
 	r.Rule("R3", "import accounting: in ImportRoaringBits each updater returns write=true only on paths that add a container-cardinality delta to both `changed` and the per-row map, returns write=false only on paths that touched neither, and every amount added derives from N() of the container being returned")
 	r.Rule("R4", "official format, run cookie: the presence of the offset header depends on the container count (present from 4 containers on); both official readers must branch on the container count against that threshold on the run path")
+	r.Rule("R5", "stored-minus-one quantities are widened before the increment: in every function of package roaring that reads integers from the wire (encoding/binary UintNN), no sum with a constant is computed in an 8- or 16-bit type")
+	c04WidenBeforeIncrement(p, r)
 	r.NotDecided = "round-trip equality and import == decode-then-merge for all sets (value level); correctness of the container kernels used by the updaters (C01)"
 	rp := p.Pkg("roaring")
 	if rp == nil {
@@ -891,5 +893,93 @@ func c04Updaters(p *core.Program, r *core.Report) {
 		default:
 			r.HoldAt("R3", construct, p.Pos(lit.Pos()), fmt.Sprintf("write flag paired with accounting on every path; %d increments derive from N() of the returned container", len(incrs)))
 		}
+	}
+}
+
+// c04WidenBeforeIncrement: rule R5. Both formats store counts minus one in 16
+// bits (container count with the run cookie, cardinality, run count), and the
+// maximum 0xFFFF is a valid value. Adding the one back in the stored type
+// wraps it to 0.
+func c04WidenBeforeIncrement(p *core.Program, r *core.Report) {
+	rp := p.Pkg("roaring")
+	if rp == nil {
+		return
+	}
+	info := rp.TypesInfo
+	nFuncs, nAdds := 0, 0
+	for _, fd := range core.AllFuncDecls(rp) {
+		if fd.Body == nil || strings.HasSuffix(p.Fset.Position(fd.Pos()).Filename, "_test.go") {
+			continue
+		}
+		readsWire := false
+		ast.Inspect(fd.Body, func(n ast.Node) bool {
+			if c, ok := n.(*ast.CallExpr); ok {
+				if fn := core.CalleeOf(info, c); fn != nil && fn.Pkg() != nil && fn.Pkg().Path() == "encoding/binary" && strings.HasPrefix(fn.Name(), "Uint") {
+					readsWire = true
+				}
+			}
+			return true
+		})
+		if !readsWire {
+			continue
+		}
+		nFuncs++
+		ast.Inspect(fd.Body, func(n ast.Node) bool {
+			ar, ok := n.(*ast.BinaryExpr)
+			if !ok || ar.Op != token.ADD {
+				return true
+			}
+			if tv, ok := info.Types[ar]; ok && tv.Value != nil {
+				return true
+			}
+			_, cx := c04ConstInt(info, ar.X)
+			_, cy := c04ConstInt(info, ar.Y)
+			if !cx && !cy {
+				return true
+			}
+			nAdds++
+			b, ok := info.TypeOf(ar).Underlying().(*types.Basic)
+			if !ok {
+				return true
+			}
+			switch b.Kind() {
+			case types.Uint8, types.Uint16, types.Int8, types.Int16:
+				r.Violate("R5", core.FuncName(fd)+" `"+types.ExprString(ar)+"`", p.Pos(ar.Pos()), "a constant is added in "+b.Name()+" in a function that decodes integers from the wire: the formats store counts minus one and 0xFFFF (2^16 containers, values or runs) is valid, so the sum wraps to 0 and the maximum decodes as nothing")
+			}
+			return true
+		})
+	}
+	r.Floor("C04/R5 wire-reading functions", nFuncs, 6)
+	r.Floor("C04/R5 constant increments in wire-reading functions", nAdds, 10)
+	if nAdds > 0 {
+		r.HoldAt("R5", "constant increments in wire-reading functions", "", fmt.Sprintf("%d increments examined; none outside the reported ones is computed in 8 or 16 bits", nAdds))
+	}
+}
+
+// DebugNarrowAdds lists 8/16-bit non-constant sums/products on the roaring decode path.
+func DebugNarrowAdds(p *core.Program) {
+	rp := p.Pkg("roaring")
+	info := rp.TypesInfo
+	decode := c06RoaringDecodePath(rp)
+	for _, fd := range core.AllFuncDecls(rp) {
+		if fd.Body == nil || !decode[core.FuncName(fd)] {
+			continue
+		}
+		ast.Inspect(fd.Body, func(n ast.Node) bool {
+			ar, ok := n.(*ast.BinaryExpr)
+			if !ok || (ar.Op != token.ADD && ar.Op != token.MUL && ar.Op != token.SUB) {
+				return true
+			}
+			if tv, ok := info.Types[ar]; ok && tv.Value != nil {
+				return true
+			}
+			if b, ok := info.TypeOf(ar).Underlying().(*types.Basic); ok {
+				switch b.Kind() {
+				case types.Uint8, types.Uint16, types.Int8, types.Int16:
+					println(p.Pos(ar.Pos()), core.FuncName(fd), types.ExprString(ar), b.Name())
+				}
+			}
+			return true
+		})
 	}
 }
